@@ -1147,4 +1147,6 @@ class DFParse(Op):
 
 
 def ops():
-    return [DStr(), DRoundTrip(), DRoundTripEq(), DParse(), DAlt(), DRegex(), F64(), DFloat(), DFParse()]
+    import durtextqops
+    return [DStr(), DRoundTrip(), DRoundTripEq(), DParse(), DAlt(), DRegex(), F64(), DFloat(), DFParse(),
+            durtextqops.DurTextQOp()]
